@@ -236,12 +236,13 @@ func concurrentDupChild(w *core.WorkerCtx, report []string) {
 		snap := n.Prev
 		var tip ledger.H
 		var wgt uint64
+		found := false
 		for h := range snap.Leaves {
 			if v, ok := snap.Vertex(h); ok && v.Weight >= wgt {
-				tip, wgt = h, v.Weight
+				tip, wgt, found = h, v.Weight, true
 			}
 		}
-		if wgt == 0 {
+		if !found {
 			break
 		}
 		from := u[1+m%3]
@@ -406,12 +407,13 @@ func orphanReplayRace(w *core.WorkerCtx, report []string) {
 		snap := n.Prev
 		var tip ledger.H
 		var wgt uint64
+		found := false
 		for h := range snap.Leaves {
 			if v, ok := snap.Vertex(h); ok && v.Weight >= wgt {
-				tip, wgt = h, v.Weight
+				tip, wgt, found = h, v.Weight, true
 			}
 		}
-		if wgt == 0 {
+		if !found {
 			break
 		}
 		pt := world.NewTrx(u[0], u[1+m%3].Addr, spice.Melange{}, []byte(fmt.Sprintf("parent %d", m)))
@@ -488,12 +490,13 @@ func c09DroppedThenTampered(w *core.WorkerCtx, report []string) {
 		s := n.Prev
 		var tip ledger.H
 		var wgt uint64
+		found := false
 		for h := range s.Leaves {
 			if v, ok := s.Vertex(h); ok && v.Weight >= wgt {
-				tip, wgt = h, v.Weight
+				tip, wgt, found = h, v.Weight, true
 			}
 		}
-		if wgt == 0 {
+		if !found {
 			break
 		}
 		// the original overdraws (500 out of 100) and carries data in every second round
@@ -575,12 +578,13 @@ func c09ClockSkew(w *core.WorkerCtx) {
 		s := n.Prev
 		var tip ledger.H
 		var wgt uint64
+		found := false
 		for h := range s.Leaves {
 			if v, ok := s.Vertex(h); ok && v.Weight >= wgt {
-				tip, wgt = h, v.Weight
+				tip, wgt, found = h, v.Weight, true
 			}
 		}
-		if wgt == 0 {
+		if !found {
 			break
 		}
 		t := world.NewTrx(u[0], u[1+round%3].Addr, spice.Melange{}, []byte(fmt.Sprintf("from a peer whose clock is off by %v", skew)))
@@ -595,6 +599,11 @@ func c09ClockSkew(w *core.WorkerCtx) {
 					world.Violate("C09", "created-not-in-dag", fmt.Sprintf("CreateLeaf returned vertex %s (parent created %v from now) but the graph does not hold it under that hash", ledger.Hex(cv.Hash), skew))
 				}
 			}
+		}
+		if f := os.Getenv("VERIF_DEBUG_SKEW"); f != "" {
+			fh, _ := os.OpenFile(f, os.O_APPEND|os.O_CREATE|os.O_WRONLY, 0o644)
+			fmt.Fprintf(fh, "skew %v deliver err=%v live=%d leaves=%d\n", skew, derr, len(n.Prev.Live), len(n.Prev.Leaves))
+			fh.Close()
 		}
 		world.EvalFor("C09", 1)
 		world.NontrivFor("C09", fmt.Sprintf("clock-skew/%v/admitted=%v", skew, derr == nil))
